@@ -135,6 +135,10 @@ def check(ctx):
                 cli = cli_args(f, vs["cli"]) if s["cli"] else []
                 cases.append({"id": len(cases), "env": env, "file": file, "cli": cli})
                 meta.append((f, vs, s))
+                if s["file"] and (idx + len(cases)) % 3 == 0:
+                    # the file reached through a symbolic link is the file
+                    cases.append({"id": len(cases), "env": env, "file": file, "cli": cli, "cfgform": "link"})
+                    meta.append((f, vs, s))
                 if s["file"] and s["cli"]:
                     # the flag package also accepts -config=<file> and --config <file>: whatever becomes of the file then, what
                     # the command line says about the option stands
